@@ -10,5 +10,6 @@ def jobs(tier):
     for s, l in (((1, 1), (2, 2)) if tier == 'quick' else ((1, 0), (1, 1), (1, 2), (2, 1), (2, 2))):
         out.append(Job('decrypt-s%d-l%d' % (s, l), 'cli_fetch.cpp', 'h_c30_decrypt', [s, l], reach=['accepted', 'refused'], snippets=SN, redirect=R, timeout=1500, bounds='%d shards, %d returned bytes' % (s, l)))
     for l in ((1, 2) if tier == 'quick' else (0, 1, 2, 3)):
-        out.append(Job('finalize-l%d' % l, 'cli_fetch.cpp', 'h_c30_finalize', [l], reach=['written'], snippets=SN, redirect=R, timeout=1500, bounds='%d delivered bytes' % l))
+        out.append(Job('finalize-l%d' % l, 'cli_fetch.cpp', 'h_c30_finalize', [l, 0], reach=['written'], snippets=SN, redirect=R, timeout=1500, bounds='%d delivered bytes; content hash and chunk id symbolic relative to their digest' % l))
+        out.append(Job('finalize-l%d-extra-header' % l, 'cli_fetch.cpp', 'h_c30_finalize', [l, 1], reach=['written'], snippets=SN, redirect=R, timeout=1500, bounds='%d delivered bytes, plus one response header with a symbolic 9-letter key and 8-character value' % l))
     return out
